@@ -189,7 +189,7 @@ Definition cfg_candidates (g : gates) (c : topcfg) : list verr :=
   else if negb g.(g_nopipe) && is_nil c.(c_recv) then [ENoReceivers]
   else if negb g.(g_nopipe) && is_nil c.(c_exp) then [ENoExporters]
   else match filter_some (conn_err c) (keys c.(c_conn)) with
-       | _ :: _ as l => l
+       | (_ :: _) as l => l
        | [] => match first_some (ext_err c) c.(c_svc_ext) with
                | Some e => [e]
                | None => filter_some (pipe_ref_err c) c.(c_pipes)
